@@ -56,3 +56,16 @@ package egress
 //verif:modifies nothing
 //verif:loop 0 vars i
 //verif:loop 0 invariant 0 <= i && i <= 12 && forall k in [0, i): ip16[k] == 0
+
+// ---- C18: the effective policy never exceeds the operator's ceiling ----------------
+//verif:func DenyAll() (p)
+//verif:ensures !p.Enabled && len(p.Allowlist) == 0
+//verif:pure
+
+//verif:func ResolvePolicy(perProcessor, ceiling) (effective, dropped)
+//verif:ensures[disabled-stays-disabled] !perProcessor.Enabled || !ceiling.Enabled ==> !effective.Enabled
+//verif:ensures[timeout-clamped] effective.Enabled && ceiling.Timeout > 0 ==> effective.Timeout <= ceiling.Timeout
+//verif:ensures[size-clamped] effective.Enabled && ceiling.MaxResponseBytes > 0 ==> effective.MaxResponseBytes <= ceiling.MaxResponseBytes
+//verif:ensures[limits-positive] effective.Enabled ==> effective.Timeout > 0 && effective.MaxResponseBytes > 0
+//verif:ensures[secrets-intersected] effective.Enabled && (len(ceiling.Allowlist) > 0 || len(ceiling.SecretRefs) > 0) ==> called("intersectRefs") && effective.SecretRefs == result_of("intersectRefs", 0)
+//verif:call[intersect-both] intersectRefs requires arg0 == perProcessor.SecretRefs && arg1 == ceiling.SecretRefs
